@@ -664,3 +664,437 @@ Proof.
       * simpl. intros _. right. right. right. right. left. reflexivity.
     + simpl. intros _. right. right. left. reflexivity.
 Qed.
+
+(* the leaf sequence inside the identities *)
+Lemma lids_filter : forall t, lids t = map tid (filter is_leaf (subs t)).
+Proof.
+  induction t as [i l|i kids IH] using (tree_ind' V); [reflexivity|].
+  rewrite lids_Node, subs_Node. simpl.
+  induction IH as [|[s c] r Hc _ IH2]; [reflexivity|].
+  simpl in Hc. rewrite klids_cons, ksubs_cons, filter_app, map_app, <- Hc, <- IH2. reflexivity.
+Qed.
+Lemma NoDup_map_filter : forall (A : Type) (f : A -> nat) p (l : list A),
+  NoDup (map f l) -> NoDup (map f (filter p l)).
+Proof.
+  induction l as [|a l IH]; simpl; intros H; [constructor|]. inversion H; subst.
+  destruct (p a); simpl; [constructor|]; auto.
+  intro Hin. apply H2. apply in_map_iff in Hin. destruct Hin as (x & E & Hx).
+  apply filter_In in Hx. rewrite <- E. apply in_map. tauto.
+Qed.
+Lemma lids_NoDup : forall t, NoDup (ids t) -> NoDup (lids t).
+Proof. intros t H. rewrite lids_filter. rewrite ids_subs in H. apply NoDup_map_filter. exact H. Qed.
+Lemma lids_in_ids : forall t y, In y (lids t) -> In y (ids t).
+Proof.
+  intros t y H. rewrite lids_filter in H. rewrite ids_subs. apply in_map_iff in H.
+  destruct H as (x & E & Hx). apply filter_In in Hx. rewrite <- E. apply in_map. tauto.
+Qed.
+Lemma leaf_in_lids : forall t i l, In (Leaf i l) (subs t) -> In i (lids t).
+Proof.
+  intros t i l H. rewrite lids_filter. change i with (tid (Leaf i l)). apply in_map.
+  apply filter_In. split; [exact H | reflexivity].
+Qed.
+
+Theorem footprint_set_in : forall fresh t k v iu,
+  Inv V ml mi t -> ids_ok V fresh t -> no_embed_below V true stored t ->
+  (forall x, mem x stored = true -> x < fresh) ->
+  let r := tset fresh t k v iu in
+  forall i n n', mem i stored = true ->
+    find_node t i = Some n -> find_node (s_tree r) i = Some n' ->
+    getstate V stored t n <> getstate V stored (s_tree r) n' -> marked stored (s_ev r) i.
+Proof.
+  intros fresh t k v iu HI [ND Hlt] Hg Hst r i n n' Hi Fn Fn' Hneq.
+  rewrite Forall_forall in Hlt.
+  destruct (Inv_inv _ _ _ _ HI) as (i0 & kids & -> & [->|[Hlen Wt]]).
+  - (* empty root *)
+    simpl in Fn. destruct (i0 =? i) eqn:E; [|discriminate]. apply Nat.eqb_eq in E. subst i0.
+    right. exists fresh. split; [simpl; auto|].
+    destruct (mem fresh stored) eqn:Em; [|reflexivity]. apply Hst in Em. lia.
+  - set (t := Node i0 kids) in *.
+    assert (Hpre : set_pre t).
+    { split; [simpl; lia|]. split; [eapply WFbody_szb; exact Wt|]. apply (no_embed_nemb _ _ _ Hg). }
+    destruct (set_ok_all t fresh k v iu Hpre) as (P1 & P2 & P3 & P4 & P5 & P6 & P7 & P8 & P9).
+    fold r in P1, P2, P3, P4, P5, P6, P7, P8, P9.
+    apply find_node_subs in Fn. destruct Fn as [Sn Tn].
+    apply find_node_subs in Fn'. destruct Fn' as [Sn' Tn'].
+    assert (Hil : i < fresh) by (apply Hlt; rewrite <- Tn; apply subs_ids; exact Sn).
+    destruct (P9 n' Sn') as [(n0 & S0 & T0 & Sh)|[H|H]]; [|lia|rewrite <- Tn'; exact H].
+    assert (n0 = n) by (eapply subs_unique; [exact ND | exact S0 | exact Sn | congruence]). subst n0.
+    (* successors of old leaves *)
+    assert (Hsucc : forall y, In y (lids t) ->
+              succ_of (lids t) y = succ_of (lids (s_tree r)) y \/ In (EChanged y) (s_ev r)).
+    { apply (Rs_succ _ _ _ _ _ P5); [apply lids_NoDup; exact ND|].
+      intros y Hy. apply Hlt. apply lids_in_ids. exact Hy. }
+    destruct n as [j l|j nk].
+    + (* a leaf *)
+      simpl in Tn. subst j.
+      destruct (Hsucc i (leaf_in_lids _ _ _ Sn)) as [Hs|Hs]; [|left; exact Hs].
+      exfalso. apply Hneq. rewrite !getstate_eq. apply gs_shallow; [exact Sh| |discriminate].
+      intros i1 l1 E. injection E as <- <-. rewrite Tn'. exact Hs.
+    + (* a node: its record mentions a successor only if it embeds, i.e. it is the root *)
+      destruct (embk stored nk) eqn:Ee.
+      * assert (En : Node j nk = t).
+        { apply subs_inv in Sn. destruct Sn as [Sn|Sn]; [exact Sn|].
+          pose proof (proj1 (proj2 Hpre)) as _. pose proof (proj2 (proj2 Hpre) _ Sn) as Hc.
+          simpl in Hc. congruence. }
+        destruct (embk_inv _ _ Ee) as (s & l & items & Ek & Hm).
+        assert (Dst : s_st r = StNone \/ s_st r <> StNone)
+          by (destruct (s_st r); [left; reflexivity | right; discriminate | right; discriminate]).
+        destruct Dst as [Dst|Dst].
+        -- exfalso. apply Hneq. rewrite !getstate_eq, (P7 Dst).
+           apply gs_shallow; [exact Sh | discriminate | reflexivity].
+        -- right. exists l. split; [|exact Hm]. simpl in Tn. subst j.
+           unfold r, t. inversion En; subst. apply set_embed_root. exact Dst.
+      * exfalso. apply Hneq. rewrite !getstate_eq. apply gs_shallow; [exact Sh | discriminate|].
+        intros i1 s l items E Hm. inversion E; subst. simpl in Ee. rewrite Hm in Ee. discriminate.
+Qed.
+End SetFP.
+
+(* ================================================================== *)
+(* 5. tdel                                                             *)
+(* ================================================================== *)
+(* the leaf sequence after a deletion: unchanged, or one id x removed; the
+   predecessor of x is marked, unless x was the first (flag g, passed upwards) *)
+Definition Rd (ev : list event) (g : bool) (L L' : list nat) : Prop :=
+  (L' = L /\ g = false) \/
+  exists A x B, L = A ++ x :: B /\ L' = A ++ B /\
+    ((A = [] /\ g = true) \/ (A <> [] /\ g = false /\ In (EChanged (last A 0)) ev)).
+
+Lemma last_snoc : forall (A : list nat) y d, last (A ++ [y]) d = y.
+Proof. intros. rewrite last_app_ne by discriminate. reflexivity. Qed.
+
+Lemma Rd_succ : forall ev g L L', Rd ev g L L' -> NoDup L ->
+  forall y, In y L' -> succ_of L y = succ_of L' y \/ In (EChanged y) ev.
+Proof.
+  intros ev g L L' [[-> _]|(A & x & B & -> & -> & HA)] ND y Hy; [left; reflexivity|].
+  assert (HxA : ~ In x A) by (intro; eapply NoDup_app_disj; [exact ND | eassumption | left; reflexivity]).
+  assert (NDB : NoDup (x :: B)) by (eapply NoDup_app_r; exact ND).
+  apply in_app_or in Hy. destruct Hy as [Hy|Hy].
+  - destruct (NoDup_split A y (NoDup_app_l _ _ ND) Hy) as (A1 & A2 & EA & H1 & _).
+    destruct A2 as [|a A2].
+    + right. destruct HA as [[HA _]|(_ & _ & HA)]; [subst A; destruct A1; discriminate|].
+      rewrite EA, last_snoc in HA. exact HA.
+    + left. subst A. rewrite <- !app_assoc. simpl. rewrite !succ_split by assumption. reflexivity.
+  - left. assert (NA : ~ In y A) by (intro; eapply NoDup_app_disj; [exact ND | eassumption | right; exact Hy]).
+    inversion NDB; subst. assert (Nyx : y <> x) by congruence.
+    destruct (NoDup_split B y H2 Hy) as (B1 & B2 & -> & H3 & _).
+    assert (E1 : A ++ x :: B1 ++ y :: B2 = (A ++ x :: B1) ++ y :: B2)
+      by (rewrite <- app_assoc; reflexivity).
+    assert (E2 : A ++ B1 ++ y :: B2 = (A ++ B1) ++ y :: B2) by (rewrite <- app_assoc; reflexivity).
+    rewrite E1, E2, !succ_split; [reflexivity| |].
+    + intro H. apply in_app_or in H. destruct H as [H|H]; auto.
+    + intro H. apply in_app_or in H. destruct H as [H|[H|H]]; auto.
+Qed.
+
+(* placing a subtree's change into its context: Lp = leaves before (within the
+   responsibility of this level), Y = leaves after *)
+Lemma Rd_ctx : forall evc ev gc g Lc Lc' Lp Y,
+  Rd evc gc Lc Lc' -> incl evc ev ->
+  (Lp = [] -> g = gc) ->
+  (Lp <> [] -> g = false /\ (gc = true -> In (EChanged (last Lp 0)) ev)) ->
+  Rd ev g (Lp ++ Lc ++ Y) (Lp ++ Lc' ++ Y).
+Proof.
+  intros evc ev gc g Lc Lc' Lp Y H He H0 H1.
+  assert (Gf : gc = false -> g = false).
+  { intros E. destruct Lp; [rewrite H0; auto | apply H1; discriminate]. }
+  destruct H as [[-> Hg]|(A & x & B & -> & -> & HA)]; [left; auto|].
+  right. exists (Lp ++ A), x, (B ++ Y). split; [rewrite <- !app_assoc; reflexivity|].
+  split; [rewrite <- !app_assoc; reflexivity|].
+  destruct HA as [[-> Hg]|(HA & Hg & Hin)].
+  - rewrite app_nil_r. destruct Lp as [|a Lp]; [left; split; [reflexivity | rewrite H0; auto]|].
+    right. destruct H1 as [H1 H2]; [discriminate|]. split; [discriminate|]. split; [exact H1 | exact (H2 Hg)].
+  - right. split; [destruct Lp; [exact HA | discriminate]|]. split; [exact (Gf Hg)|].
+    rewrite last_app_ne by exact HA. apply He. exact Hin.
+Qed.
+
+(* all subtrees non-empty *)
+Definition pne (t : tree) : Prop := forall n, In n (subs t) -> 1 <= tsize n.
+Lemma pne_of : forall t, size_ok t -> szb t -> pne t.
+Proof.
+  intros t H1 H2 n Hn. apply subs_inv in Hn. destruct Hn as [->|Hn].
+  - unfold TreeBase.size_ok in H1. lia.
+  - specialize (H2 n Hn). unfold TreeBase.size_ok in H2. lia.
+Qed.
+Lemma pne_child : forall i kids s c, pne (Node i kids) -> In (s, c) kids -> pne c.
+Proof. intros i kids s c H Hin n Hn. apply H. apply tl_subs. eapply subs_child; eassumption. Qed.
+
+Lemma lids_ne : forall t, pne t -> lids t <> [].
+Proof.
+  induction t as [i l|i kids IH] using (tree_ind' V); intros H; [discriminate|].
+  rewrite lids_Node. pose proof (H _ (subs_self _)) as Hs. simpl in Hs.
+  destruct kids as [|[s c] r]; [simpl in Hs; lia|].
+  inversion IH; subst. simpl in H2. rewrite klids_cons. intro E. apply app_eq_nil in E.
+  destruct E as [E _]. revert E. apply H2. eapply pne_child; [exact H | left; reflexivity].
+Qed.
+
+Lemma last_leaf_last : forall t, pne t -> last_leaf_id V t = last (lids t) 0.
+Proof.
+  induction t as [i l|i kids IH] using (tree_ind' V); intros H; [reflexivity|].
+  rewrite lids_Node. pose proof (H _ (subs_self _)) as Hs. simpl in Hs.
+  assert (Hk : forall s c, In (s, c) kids -> pne c) by (intros; eapply pne_child; eassumption).
+  clear H. simpl.
+  assert (G : forall l d, Forall (fun sc => pne (snd sc) -> last_leaf_id V (snd sc) = last (lids (snd sc)) 0) l ->
+              (forall s c, In (s, c) l -> pne c) ->
+              (fix go (l : list (Z * tree)) (d : nat) : nat :=
+                 match l with [] => d | (_, c) :: rest => go rest (last_leaf_id V c) end) l d =
+              match l with [] => d | _ => last (klids l) 0 end).
+  { induction l as [|[s c] r IHl]; intros d F Hp; [reflexivity|].
+    inversion F; subst. simpl in H1. rewrite IHl; [|assumption|intros; eapply Hp; right; eassumption].
+    rewrite klids_cons. destruct r as [|[s2 c2] r2].
+    - simpl. rewrite app_nil_r. apply H1. eapply Hp. left. reflexivity.
+    - rewrite last_app_ne; [reflexivity|]. rewrite klids_cons. intro E. apply app_eq_nil in E.
+      destruct E as [E _]. revert E. apply lids_ne. eapply Hp. right. left. reflexivity. }
+  rewrite G by assumption. destruct kids; [simpl in Hs; lia | reflexivity].
+Qed.
+
+Ltac find_in :=
+  match goal with
+  | |- In _ (_ ++ _) => apply in_or_app; first [left; find_in | right; find_in]
+  | |- In _ (_ :: _) => first [left; reflexivity | right; find_in]
+  | |- _ => assumption
+  end.
+
+Definition elids (t : tree) : list nat := if tsize t =? 0 then [] else lids t.
+Definition gone (r : dres V) : bool :=
+  d_first r || (is_leaf (d_tree r) && (tsize (d_tree r) =? 0)).
+
+(* the step of the delete loop at the chosen child, by cases *)
+Lemma here_facts : forall i single k prev first s c rest r l' v ev fg,
+  chosen V k rest = true -> tdel V c k = Some r ->
+  del_go V i single k prev first ((s, c) :: rest) = Some (l', v, ev, fg) ->
+  let c' := d_tree r in
+  incl (d_ev r) ev /\
+  fg = match prev with Some _ => false | None => gone r end /\
+  (forall p, prev = Some p -> gone r = true -> In (EChanged (last_leaf_id V p)) ev) /\
+  (prev = None -> gone r = true -> In (EChanged i) ev) /\
+  (((tsize c' =? 0) = false /\ exists s', l' = (s', c') :: rest /\ (s' = s \/ In (EChanged i) ev)) \/
+   ((tsize c' =? 0) = true /\ l' = rest /\ In (EChanged i) ev)) /\
+  (is_leaf c' = true -> single = true -> In (EEmbed i (tid c')) ev).
+Proof.
+  intros i single k prev first s c rest r l' v ev fg Ch Et H c'.
+  cbn [del_go] in H. rewrite Ch, Et in H. fold c' in H. unfold gone. fold c'.
+  destruct (d_first r); destruct prev as [p|]; destruct (tsize c' =? 0) eqn:Ez;
+    destruct (is_leaf c') eqn:El; destruct single; destruct first; destruct (k =? s)%Z;
+    cbn in H; inversion H; subst; clear H; cbn;
+    (split; [intros e He; find_in|]);
+    (split; [reflexivity|]);
+    (split; [intros p0 Hp Hg; try discriminate; inversion Hp; subst; find_in|]);
+    (split; [intros Hp Hg; try discriminate; find_in|]);
+    (split; [first [left; split; [reflexivity|]; eexists; split; [reflexivity|];
+                    first [left; reflexivity | right; find_in]
+                   | right; split; [reflexivity|]; split; [reflexivity|]; find_in]|]);
+    intros Hl Hs; try discriminate; find_in.
+Qed.
+
+Section DelFP.
+Variable stored : list nat.
+Variable fresh : nat.    (* only a parameter of old_or_marked; deletion creates nothing *)
+
+Definition del_post (t : tree) (r : dres V) : Prop :=
+  let t' := d_tree r in
+  tid t' = tid t /\ is_leaf t' = is_leaf t /\
+  (gone r = false -> first_leaf t' = first_leaf t) /\
+  Rd (d_ev r) (gone r) (lids t) (elids t') /\
+  (forall i s c, t = Node i [(s, c)] -> is_leaf c = true -> In (EEmbed i (tid c)) (d_ev r)) /\
+  (forall n', In n' (subs t') -> old_or_marked stored (d_ev r) fresh (subs t) n').
+Definition del_ok (t : tree) : Prop :=
+  forall k r, pne t -> tdel V t k = Some r -> del_post t r.
+
+Definition dgo_post (i : nat) (single : bool) (prev : option tree) (l : list (Z * tree))
+           (res : list (Z * tree) * V * list event * bool) : Prop :=
+  let '(l', v, ev, fg) := res in
+  let Lp := match prev with Some p => lids p | None => [] end in
+  (prev <> None -> fg = false) /\
+  Rd ev fg (Lp ++ klids l) (Lp ++ klids l') /\
+  (prev = None -> fg = false -> kfirst l' = kfirst l) /\
+  (prev = None -> fg = true -> In (EChanged i) ev) /\
+  (ksig l' = ksig l \/ In (EChanged i) ev) /\
+  (single = true -> forall s c, l = [(s, c)] -> is_leaf c = true -> In (EEmbed i (tid c)) ev) /\
+  (forall n', In n' (ksubs l') -> old_or_marked stored ev fresh (ksubs l) n').
+
+Lemma del_ok_Leaf : forall i l, del_ok (Leaf i l).
+Proof.
+  intros i l k r _ H. rewrite tdel_Leaf in H. destruct (ldel V l k) as [[l' v]|]; [|discriminate].
+  inversion H; subst; clear H. unfold del_post, gone, elids. cbn.
+  split; [reflexivity|]. split; [reflexivity|]. split; [reflexivity|].
+  split.
+  { destruct (length l' =? 0).
+    - right. exists [], i, []. split; [reflexivity|]. split; [reflexivity|]. left. auto.
+    - left. auto. }
+  split; [discriminate|].
+  intros n' [<-|[]]. right. right. left. left. reflexivity.
+Qed.
+
+Lemma elids_Node : forall i kids, elids (Node i kids) = klids kids.
+Proof. intros. unfold elids. rewrite lids_Node. destruct kids; reflexivity. Qed.
+
+Lemma dgo_ok : forall i single k l prev first res,
+  Forall (fun sc => del_ok (snd sc)) l ->
+  (forall s c, In (s, c) l -> pne c) ->
+  (forall p, prev = Some p -> pne p) ->
+  del_go V i single k prev first l = Some res -> dgo_post i single prev l res.
+Proof.
+  intros i single k l. induction l as [|[s c] rest IHl]; intros prev first res IH Hp Hprev H;
+    [discriminate|].
+  inversion IH as [|? ? Hc IHr]; subst. simpl in Hc.
+  destruct res as [[[l' v] ev] fg].
+  destruct (chosen V k rest) eqn:Ch.
+  - destruct (tdel V c k) as [r|] eqn:Et; [|cbn [del_go] in H; rewrite Ch, Et in H; discriminate].
+    assert (Pc : pne c) by (eapply Hp; left; reflexivity).
+    destruct (Hc k r Pc Et) as (T1 & T2 & T3 & T4 & _ & T6).
+    destruct (here_facts _ _ _ _ _ _ _ _ _ _ _ _ _ Ch Et H) as (F1 & F2 & F3 & F4 & F5 & F6).
+    assert (Hl' : klids l' = elids (d_tree r) ++ klids rest).
+    { unfold elids. destruct F5 as [(Ez & s' & -> & _)|(Ez & -> & _)]; rewrite Ez; reflexivity. }
+    unfold dgo_post.
+    split; [intros Hn; destruct prev; [exact F2 | congruence]|].
+    split.
+    { rewrite Hl', klids_cons. apply (Rd_ctx _ _ _ _ _ _ _ _ T4 F1).
+      - intros E. destruct prev as [p|]; [|exact F2]. exfalso. revert E. apply lids_ne. eauto.
+      - intros Hne. destruct prev as [p|]; [|congruence]. split; [exact F2|].
+        intros Hg. rewrite <- last_leaf_last by eauto. eauto. }
+    split.
+    { intros -> ->. symmetry in F2. destruct F5 as [(Ez & s' & -> & _)|(Ez & -> & _)].
+      - simpl. apply T3. exact F2.
+      - exfalso. unfold elids in T4. rewrite Ez in T4. rewrite F2 in T4. pose proof (lids_ne _ Pc) as Hne.
+        destruct T4 as [[E _]|(A & x & B & E1 & E2 & [[_ E3]|(E3 & _)])]; try congruence.
+        symmetry in E2. apply app_eq_nil in E2. destruct E2. contradiction. }
+    split; [intros -> ->; apply F4; auto|].
+    split.
+    { destruct F5 as [(Ez & s' & -> & [->|Hs])|(Ez & -> & Hs)]; [left|right; exact Hs|right; exact Hs].
+      simpl. rewrite T1, T2. reflexivity. }
+    split.
+    { intros Hsg s0 c0 E Hl. inversion E; subst. rewrite <- T1. apply F6; [rewrite T2; exact Hl | reflexivity]. }
+    intros n' Hn. destruct F5 as [(Ez & s' & -> & _)|(Ez & -> & _)].
+    + rewrite ksubs_cons in Hn. apply in_app_or in Hn. destruct Hn as [Hn|Hn].
+      * eapply oom_mono; [| exact F1 | apply T6; exact Hn]. rewrite ksubs_cons. apply incl_appl, incl_refl.
+      * apply oom_old. rewrite ksubs_cons. apply in_or_app. right. exact Hn.
+    + apply oom_old. rewrite ksubs_cons. apply in_or_app. right. exact Hn.
+  - cbn [del_go] in H. rewrite Ch in H.
+    destruct (del_go V i single k (Some c) false rest) as [[[[l2 v2] ev2] fg2]|] eqn:Er; [|discriminate].
+    inversion H; subst; clear H.
+    assert (Pc : pne c) by (eapply Hp; left; reflexivity).
+    assert (G : dgo_post i single (Some c) rest (l2, v, ev, fg)).
+    { eapply IHl; [exact IHr | intros; eapply Hp; right; eassumption | | exact Er].
+      intros p E. inversion E; subst. exact Pc. }
+    destruct G as (G1 & G2 & _ & _ & G5 & _ & G7).
+    assert (Hfg : fg = false) by (apply G1; discriminate). subst fg.
+    unfold dgo_post.
+    split; [reflexivity|].
+    split.
+    { rewrite !klids_cons.
+      pose proof (Rd_ctx _ ev _ false _ _ (match prev with Some p => lids p | None => [] end) []
+                         G2 (incl_refl _)) as R.
+      rewrite !app_nil_r in R. apply R; [reflexivity|]. intros _. split; [reflexivity | discriminate]. }
+    split; [reflexivity|]. split; [discriminate|].
+    split; [destruct G5 as [G5|G5]; [left; simpl; rewrite G5; reflexivity | right; exact G5]|].
+    split; [intros _ s0 c0 E _; inversion E; subst; discriminate|].
+    intros n' Hn. rewrite ksubs_cons in Hn. apply in_app_or in Hn. destruct Hn as [Hn|Hn].
+    + apply oom_old. rewrite ksubs_cons. apply in_or_app. left. exact Hn.
+    + eapply oom_mono; [| apply incl_refl | apply G7; exact Hn]. rewrite ksubs_cons. apply incl_appr, incl_refl.
+Qed.
+
+Lemma Rd_mono : forall ev ev' g L L', Rd ev g L L' -> incl ev ev' -> Rd ev' g L L'.
+Proof.
+  intros ev ev' g L L' H He.
+  pose proof (Rd_ctx _ ev' _ g _ _ [] [] H He (fun _ => eq_refl)) as R.
+  simpl in R. rewrite !app_nil_r in R. apply R. congruence.
+Qed.
+
+Lemma del_ok_Node : forall i kids, Forall (fun sc => del_ok (snd sc)) kids -> del_ok (Node i kids).
+Proof.
+  intros i kids IH k r Hp H. rewrite tdel_Node in H.
+  destruct (del_go V i (length kids =? 1) k None true kids) as [[[[l' v] ev0] fg]|] eqn:Eg; [|discriminate].
+  inversion H; subst; clear H.
+  assert (G : dgo_post i (length kids =? 1) None kids (l', v, ev0, fg)).
+  { eapply dgo_ok; [exact IH | intros; eapply pne_child; eassumption | discriminate | exact Eg]. }
+  destruct G as (_ & G2 & G3 & G4 & G5 & G6 & G7). simpl in G2.
+  set (ev := ERead i :: ev0). assert (I1 : incl ev0 ev) by (apply incl_tl, incl_refl).
+  unfold del_post, gone. cbn [d_tree d_ev d_first RTree.is_leaf andb]. rewrite orb_false_r. fold ev.
+  split; [reflexivity|]. split; [reflexivity|].
+  split; [intros Hf; rewrite !first_leaf_Node; apply G3; auto|].
+  split; [rewrite elids_Node, lids_Node; eapply Rd_mono; eassumption|].
+  split.
+  { intros i1 s c E Hl. inversion E; subst. apply I1. eapply G6; [reflexivity | reflexivity | exact Hl]. }
+  intros n' Hn. rewrite subs_Node in Hn. destruct Hn as [<-|Hn].
+  2:{ eapply oom_mono; [| exact I1 | apply G7; exact Hn]. intros z Hz. right. exact Hz. }
+  destruct (embk stored kids) eqn:Ee.
+  { destruct (embk_inv _ _ Ee) as (s & l & items & Ek & Hm). right. right. right.
+    exists l. split; [|exact Hm]. apply I1. subst kids.
+    apply (G6 eq_refl s (Leaf l items) eq_refl eq_refl). }
+  destruct G5 as [G5|G5]; [|right; right; left; apply I1; exact G5].
+  destruct fg; [right; right; left; apply I1; apply G4; reflexivity|].
+  left. exists (Node i kids). split; [left; reflexivity|]. split; [reflexivity|].
+  simpl. split; [symmetry; exact G5|]. split; [symmetry; apply G3; reflexivity|].
+  rewrite Ee. discriminate.
+Qed.
+
+Lemma del_ok_all : forall t, del_ok t.
+Proof.
+  induction t as [i l|i kids IH] using (tree_ind' V); [apply del_ok_Leaf | apply del_ok_Node; exact IH].
+Qed.
+
+Theorem footprint_del_in : forall t k r,
+  Inv V ml mi t -> ids_ok V fresh t -> no_embed_below V true stored t ->
+  tdel V t k = Some r ->
+  forall i n n', mem i stored = true ->
+    find_node t i = Some n -> find_node (d_tree r) i = Some n' ->
+    getstate V stored t n <> getstate V stored (d_tree r) n' -> marked stored (d_ev r) i.
+Proof.
+  intros t k r HI [ND Hlt] Hg Hd i n n' Hi Fn Fn' Hneq.
+  rewrite Forall_forall in Hlt.
+  destruct (Inv_inv _ _ _ _ HI) as (i0 & kids & -> & [->|[Hlen Wt]]); [discriminate|].
+  set (t := Node i0 kids) in *.
+  assert (Hszb : szb t) by (eapply WFbody_szb; exact Wt).
+  assert (Hp : pne t).
+  { intros z Hz. apply subs_inv in Hz. destruct Hz as [->|Hz]; [simpl; lia|].
+    specialize (Hszb z Hz). unfold TreeBase.size_ok in Hszb. lia. }
+  destruct (del_ok_all t k r Hp Hd) as (T1 & T2 & T3 & T4 & T5 & T6).
+  apply find_node_subs in Fn. destruct Fn as [Sn Tn].
+  apply find_node_subs in Fn'. destruct Fn' as [Sn' Tn'].
+  assert (Hil : i < fresh) by (apply Hlt; rewrite <- Tn; apply subs_ids; exact Sn).
+  destruct (T6 n' Sn') as [(n0 & S0 & T0 & Sh)|[H|H]]; [|lia|rewrite <- Tn'; exact H].
+  assert (n0 = n) by (eapply subs_unique; [exact ND | exact S0 | exact Sn | congruence]). subst n0.
+  assert (El : elids (d_tree r) = lids (d_tree r)).
+  { destruct (d_tree r) as [j l|j kk]; [discriminate T2|]. rewrite elids_Node, lids_Node. reflexivity. }
+  rewrite El in T4.
+  destruct n as [j l|j nk].
+  - simpl in Tn. subst j. destruct n' as [j' l'|]; [|contradiction Sh]. simpl in Tn'. subst j'.
+    destruct (Rd_succ _ _ _ _ T4 (lids_NoDup _ ND) i (leaf_in_lids _ _ _ Sn')) as [Hs|Hs]; [|left; exact Hs].
+    exfalso. apply Hneq. rewrite !getstate_eq. apply gs_shallow; [exact Sh| |discriminate].
+    intros i1 l1 E. injection E as <- <-. exact Hs.
+  - destruct (embk stored nk) eqn:Ee.
+    + assert (En : Node j nk = t).
+      { apply subs_inv in Sn. destruct Sn as [Sn|Sn]; [exact Sn|].
+        pose proof (proj1 (no_embed_nemb _ _ _ Hg) _ Sn) as Hc. simpl in Hc. congruence. }
+      destruct (embk_inv _ _ Ee) as (s & l & items & Ek & Hm).
+      right. exists l. split; [|exact Hm]. simpl in Tn. subst j nk.
+      apply (T5 i s (Leaf l items)); [symmetry; exact En | reflexivity].
+    + exfalso. apply Hneq. rewrite !getstate_eq. apply gs_shallow; [exact Sh | discriminate|].
+      intros i1 s l items E Hm. inversion E; subst. simpl in Ee. rewrite Hm in Ee. discriminate.
+Qed.
+End DelFP.
+End FP.
+
+Theorem footprint_set :
+  forall (V : Type) (veq : V -> V -> bool) (vs : bool) (ml mi fresh : nat) (t : tree V) (k : Z) (v : V)
+         (ifunset : bool) (stored : list nat),
+  (1 <= ml)%nat -> (2 <= mi)%nat -> Inv V ml mi t -> ids_ok V fresh t ->
+  no_embed_below V true stored t ->
+  (forall x, mem x stored = true -> (x < fresh)%nat) ->
+  let r := tset V veq vs ml mi fresh t k v ifunset in
+  forall i n n', mem i stored = true ->
+    find_node V t i = Some n -> find_node V (s_tree r) i = Some n' ->
+    getstate V stored t n <> getstate V stored (s_tree r) n' -> marked stored (s_ev r) i.
+Proof. intros. eapply footprint_set_in; eassumption. Qed.
+
+Theorem footprint_del :
+  forall (V : Type) (ml mi fresh : nat) (t : tree V) (k : Z) (r : dres V) (stored : list nat),
+  (1 <= ml)%nat -> (2 <= mi)%nat -> Inv V ml mi t -> ids_ok V fresh t ->
+  no_embed_below V true stored t ->
+  tdel V t k = Some r ->
+  forall i n n', mem i stored = true ->
+    find_node V t i = Some n -> find_node V (d_tree r) i = Some n' ->
+    getstate V stored t n <> getstate V stored (d_tree r) n' -> marked stored (d_ev r) i.
+Proof. intros. eapply footprint_del_in; eassumption. Qed.
+
+Print Assumptions footprint_set.
+Print Assumptions footprint_del.
